@@ -248,6 +248,9 @@ class Impl(object):
         if k == 'unidentify':
             u.clearAuth()
             return self.unit(U.setUser, u)
+        if k == 'logout':
+            # IrcUser.clearAuth() on its own: the method invalidates the cached lookups of its logins itself
+            return self.unit(u.clearAuth)
         if k == 'rename':
             try:
                 U.getUserId(op[2]); return 'exists'
@@ -304,7 +307,7 @@ def wire_line(op):
     if k == 'load': return 'load\t%d\t%s\t%d\t%s' % (op[1], E(op[2]), op[3], wire.enc_list(op[4]))
     if k == 'deluser': return 'deluser\t%d' % op[1]
     if k in ('addhost', 'rmhost', 'identify', 'rename'): return '%s\t%d\t%s' % (k, op[1], E(op[2]))
-    if k == 'unidentify': return 'unidentify\t%d' % op[1]
+    if k in ('unidentify', 'logout'): return '%s\t%d' % (k, op[1])
     if k == 'secure': return 'secure\t%d\t%d' % (op[1], op[2])
     if k == 'order': return 'order\t%d\t%s' % (op[1], wire.enc_list(op[2]))
     raise ValueError(op)
@@ -343,6 +346,7 @@ def gen_history(r, hostile=False):
         if hostile and r.random() < 0.25: nm = r.choice(ODD + HOSTS[:4])
         return nm
     recent = []
+    logins = {}
     for _ in range(n):
         x = r.random()
         if x < 0.12 or not ids:
@@ -353,11 +357,17 @@ def gen_history(r, hostile=False):
         elif x < 0.29:
             ops.append(('rmhost', someid(), pat()))
         elif x < 0.41:
-            h = host(); recent.append(h)
-            ops.append(('identify', someid(), h))
-        elif x < 0.45:
-            ops.append(('unidentify', someid()))
-        elif x < 0.49:
+            h = host(); recent.append(h); i = someid()
+            ops.append(('identify', i, h)); logins.setdefault(i, []).append(h)
+            if r.random() < 0.5:
+                ops.append(('lookup', h))            # recognised while logged in: the answer is cached
+        elif x < 0.47:
+            i = r.choice(sorted(logins)) if logins and r.random() < 0.8 else someid()
+            ops.append((r.choice(['unidentify', 'logout', 'logout']), i))
+            # … and asked again right after the logout (with timeoutIdentification 0, the default, as with any other)
+            for h in logins.pop(i, [])[-2:]:
+                ops.append(('lookup', h))
+        elif x < 0.50:
             ops.append(('rename', someid(), name()))
         elif x < 0.53:
             ops.append(('secure', someid(), r.randint(0, 1)))
@@ -380,6 +390,20 @@ def gen_history(r, hostile=False):
             ops.append(('dump',))
     ops.append(('dump',))
     return ops
+
+# logouts: asked again right after (seeded C03-r3m1), a repeated login is dated anew (C04-r3m1), a logout after the cache
+# has turned over (C04-r3m5)
+def logout_corpus():
+    yield [('reset', 0), ('register', 'alice', None), ('identify', 1, 'zed!z@z'), ('lookup', 'zed!z@z'), ('lookup', 'zed!z@z'),
+           ('logout', 1), ('lookup', 'zed!z@z'), ('identify', 1, 'zed!z@z'), ('lookup', 'zed!z@z'), ('unidentify', 1), ('lookup', 'zed!z@z'), ('dump',)]
+    yield [('reset', 10), ('register', 'alice', None), ('identify', 1, 'zed!z@z'), ('tick', 8), ('identify', 1, 'zed!z@z'), ('tick', 5),
+           ('lookup', 'zed!z@z'), ('tick', 6), ('lookup', 'zed!z@z'), ('dump',)]
+    ops = [('reset', 0), ('register', 'pool', '*!*@*.pool.example'), ('register', 'alice', None)]
+    ops += [('lookup', 'n%d!u@h%d.pool.example' % (i, i)) for i in range(500)]
+    ops += [('identify', 2, 'alice!a@laptop.example'), ('lookup', 'alice!a@laptop.example')]
+    ops += [('lookup', 'm%d!u@h%d.pool.example' % (i, i)) for i in range(520)]
+    ops += [('unidentify', 2), ('lookup', 'alice!a@laptop.example'), ('dump',)]
+    yield ops
 
 def gen_overflow(r):
     """>1000 distinct lookups so that both CacheDicts empty themselves, interleaved with edits"""
@@ -504,11 +528,20 @@ def run_history(impl, ops, kind, oracle=True):
                         others = [j for j, v in impl.U.users.items() if j != uid and matches(v)]
                         if others:
                             fail('op %d: %r resolved to user %d although user(s) %r match it as well' % (idx, s, uid, others))
-        elif k in ('register', 'addhost', 'load', 'rmhost', 'identify', 'unidentify', 'rename', 'secure') and out == 'ok':
+        if oracle and k in ('unidentify', 'logout') and out != 'nouser':
+            u = impl.U.users.get(op[1])
+            if u is not None and u.auth:
+                fail('op %d: after %s (%s) account %d still holds the logins %r' % (idx, k, out.replace('\t', ' '), op[1], [(int(w), m) for (w, m) in u.auth]))
+        if k == 'lookup':
+            pass
+        elif k in ('register', 'addhost', 'load', 'rmhost', 'identify', 'unidentify', 'logout', 'rename', 'secure') and out == 'ok':
             looked = set()
             tags.add(k)
             if oracle and k == 'identify':
                 u = impl.U.users.get(op[1])
+                if u is not None and impl.timeout >= 0 and (impl.clock.now, op[2]) not in [(int(w), m) for (w, m) in u.auth]:   # (a negative timeout expires every login at once)
+                    fail('op %d: identify at time %d was accepted, but the login from %r is dated %r'
+                         % (idx, impl.clock.now, op[2], [int(w) for (w, m) in u.auth if m == op[2]]))
                 if u is not None and u.secure and clean(op[2]) and not any(o_glob(str(m), op[2]) for m in u.hostmasks if clean(str(m))):
                     fail('op %d: the secure account %d accepted a login from %r, which matches none of its registered masks' % (idx, op[1], op[2]))
             if oracle and k in ('register', 'addhost', 'load'):
@@ -894,7 +927,7 @@ def explore(ctx, n_hist, n_hostile, n_over, n_glob, corpus=(), stream='c04', n_p
     def add(c, ls):
         spans.append((c, len(lines), len(ls))); lines.extend(ls); cases.append(c)
     wit = None
-    for ops in [FORMER_FINDING] + list(corpus):
+    for ops in [FORMER_FINDING] + list(logout_corpus()) + list(corpus):
         c, ls = run_history(impl, [tuple(o) for o in ops], 'corpus'); add(c, ls)
         if wit is None: wit = c
     for _ in range(n_hist):
